@@ -9,7 +9,8 @@
 //!
 //! CLI as every harness binary (`--seed --cases --len --shards --out [--replay FILE]`); extra:
 //! `--only K` runs only case index K of the seed, `--mutate 1` deliberately counts unproven sectors as
-//! active in monitor (a) (self-test of the monitor; never use in a check). A case is a pure function
+//! active in monitor (a) (self-test of the monitor; never use in a check), `--probe 1` runs only the
+//! deterministic expiration-epoch scenario (see `probe_expiration_epoch`). A case is a pure function
 //! of (seed, case index, len): the replay record of a monitor failure is `{"seed","index","len"}`
 //! plus the tail of the message log. The shard files contain an empty result list.
 use fil_actor_miner::{
@@ -34,7 +35,7 @@ use fil_actor_verifreg::{
 };
 use fil_actors_integration_tests::util::{
     create_accounts, create_miner, invariant_failure_patterns, miner_info,
-    override_compute_unsealed_sector_cid,
+    override_compute_unsealed_sector_cid, verifreg_list_claims,
 };
 use fil_actors_runtime::runtime::Policy;
 use fil_actors_runtime::test_utils::{make_piece_cid, make_sealed_cid};
@@ -152,6 +153,8 @@ struct Run<'a> {
     case_id: Value,
     mutate: bool,
     filtered: BTreeSet<String>,
+    /// sector numbers changed (replica update / extension) at an epoch >= their expiration epoch
+    rebased_after_expiry: BTreeSet<u64>,
 }
 
 fn bump(cnt: &mut BTreeMap<String, u64>, k: &str, n: u64) {
@@ -410,7 +413,9 @@ impl<'a> Run<'a> {
             &self.policy,
             &self.v.actor_states(),
             None,
-            self.epoch() - 1,
+            // the state already contains the effects of the messages executed AT the current epoch
+            // (the integration tests pass epoch() - 1 because they check after moving the clock)
+            self.epoch(),
         );
         match res {
             Err(e) => self.fail("repo-state-invariants", vec![format!("check_state_invariants failed to run: {:#}", e)], json!({})),
@@ -423,6 +428,34 @@ impl<'a> Run<'a> {
                     if invariant_failure_patterns::REWARD_STATE_EPOCH_MISMATCH.is_match(&msg) {
                         self.filtered.insert("reward state epoch N does not match prior_epoch+1 M".to_string());
                         bump(self.cnt, "repo_invariant_messages_filtered", 1);
+                    } else if msg.strip_prefix("power base epoch is not before the sector expiration ").and_then(|n| n.parse::<u64>().ok()).map(|n| self.rebased_after_expiry.contains(&n)).unwrap_or(false) {
+                        // a sector whose expiration epoch has passed stays live until the cron at the end of
+                        // its deadline; ProveReplicaUpdates3 accepts it and sets power_base_epoch = now >=
+                        // expiration. Power accounting stays exact (monitors (a)-(c)); not part of the C02
+                        // statement: counted and kept as an observation with replay, like power.rs does
+                        // for miner_count.
+                        self.filtered.insert("power base epoch is not before the sector expiration N (sector replica-updated at an epoch >= its expiration, see stats.extra.replica_update_after_expiration_example)".to_string());
+                        bump(self.cnt, "repo_invariant_messages_filtered_power_base_after_expiration", 1);
+                        if !self.stats.extra.contains_key("replica_update_after_expiration_example") {
+                            let n = self.oplog.len();
+                            let v = json!({"message": msg, "case": self.case_id, "step": self.step, "epoch": self.epoch(), "messages_tail": self.oplog[n.saturating_sub(12)..].to_vec()});
+                            self.stats.extra.insert("replica_update_after_expiration_example".to_string(), v);
+                        }
+                    } else if msg.starts_with("sector verified weight ") && msg.contains(" does not match claims of ") && self.verified_weights_consistent() {
+                        // state/src/check.rs expects verified_deal_weight == sum(claim.size) * (expiration -
+                        // claim.term_start); ExtendSectorExpiration2 (simple-QAP sectors, maintained claims)
+                        // re-bases the weight to (new expiration - power_base_epoch = epoch of the extension).
+                        // Filtered ONLY when every live verified sector of every miner satisfies
+                        // verified_deal_weight == sum(claim.size) * (expiration - power_base_epoch), i.e. the
+                        // checker's formula is stale, the sector is consistent (power is computed over
+                        // expiration - power_base_epoch). Not C02 relevant; reported as an observation.
+                        self.filtered.insert("sector verified weight W does not match claims of W' for miner M (extended sector: weight re-based to power_base_epoch, see stats.extra.checker_verified_weight_example)".to_string());
+                        bump(self.cnt, "repo_invariant_messages_filtered_verified_weight_after_extension", 1);
+                        if !self.stats.extra.contains_key("checker_verified_weight_example") {
+                            let n = self.oplog.len();
+                            let v = json!({"message": msg, "case": self.case_id, "step": self.step, "epoch": self.epoch(), "messages_tail": self.oplog[n.saturating_sub(12)..].to_vec()});
+                            self.stats.extra.insert("checker_verified_weight_example".to_string(), v);
+                        }
                     } else {
                         bad.push(msg);
                     }
@@ -432,6 +465,22 @@ impl<'a> Run<'a> {
                 }
             }
         }
+    }
+
+    /// every live sector with verified weight: weight == sum of its claims' sizes * (expiration - power_base_epoch)
+    fn verified_weights_consistent(&self) -> bool {
+        for m in 0..self.miners.len() {
+            let claims = verifreg_list_claims(&self.v, self.miners[m].addr.id().unwrap());
+            for p in &self.views[m].parts {
+                for i in p.infos.iter().filter(|i| i.verified_deal_weight.is_positive()) {
+                    let space: u64 = claims.values().filter(|c| c.sector == i.sector_number).map(|c| c.size.0).sum();
+                    if i.verified_deal_weight != BigInt::from(space) * BigInt::from(i.expiration - i.power_base_epoch) {
+                        return false;
+                    }
+                }
+            }
+        }
+        true
     }
 
     // ---------- sending ----------
@@ -467,7 +516,15 @@ impl<'a> Run<'a> {
         }
         let ps: Vec<String> = self.v.panics.borrow().iter().cloned().collect();
         for p in ps {
-            self.stats.panics.push(p);
+            // known, unrelated to C02 (reported separately): quality_for_weight divides by
+            // size * (expiration - power_base_epoch) = 0 when a sector is re-based exactly at its
+            // expiration epoch; the message aborts with exit 24 and nothing is committed
+            if p.contains("attempt to divide by zero") {
+                let n = self.stats.extra.get("panics_divide_by_zero_at_expiration_epoch").and_then(|x| x.as_u64()).unwrap_or(0);
+                self.stats.extra.insert("panics_divide_by_zero_at_expiration_epoch".into(), serde_json::json!(n + 1));
+            } else {
+                self.stats.panics.push(p);
+            }
         }
         self.v.panics.borrow_mut().clear();
     }
@@ -586,7 +643,13 @@ impl<'a> Run<'a> {
         }
         self.miners[m].decided_open = info.open;
         self.miners[m].submitted.clear();
-        let parts: Vec<PartView> = self.views[m].parts.iter().filter(|p| p.dl == info.index && !p.live.is_empty()).cloned().collect();
+        // partitions whose live sectors are all faulty and not recovering cannot be proven ("no active
+        // sectors", exit 16): mostly left alone
+        let provable = r.chance(85);
+        let parts: Vec<PartView> = self.views[m].parts.iter()
+            .filter(|p| p.dl == info.index && !p.live.is_empty())
+            .filter(|p| !provable || !p.active.is_empty() || !p.unproven.is_empty() || !p.recoveries.is_empty())
+            .cloned().collect();
         if parts.is_empty() {
             return;
         }
@@ -597,7 +660,8 @@ impl<'a> Run<'a> {
         let mut skipped_recovering = false;
         for p in &parts {
             let roll = r.below(100);
-            if roll < diligence {
+            let dil = if p.recoveries.is_empty() { diligence } else { diligence.saturating_sub(20) };
+            if roll < dil {
                 plist.push(PoStPartition { index: p.idx, skipped: BitField::new() });
                 note += &format!(" p{}:full", p.idx);
             } else {
@@ -613,7 +677,7 @@ impl<'a> Run<'a> {
                         plist.push(PoStPartition { index: p.idx, skipped: bf(&sk) });
                         kind = "post_skipped";
                     }
-                    5 => {
+                    5..=6 => {
                         plist.push(PoStPartition { index: p.idx, skipped: BitField::new() });
                         invalid = true;
                         note += &format!(" p{}:invalid-proof", p.idx);
@@ -666,7 +730,7 @@ impl<'a> Run<'a> {
             size: PaddedPieceSize(size),
             term_min: self.policy.minimum_verified_allocation_term,
             term_max: self.policy.maximum_verified_allocation_term,
-            expiration: self.epoch() + self.policy.maximum_verified_allocation_expiration,
+            expiration: self.epoch() + self.policy.maximum_verified_allocation_expiration / 2,
         };
         let params = TransferParams {
             to: VERIFIED_REGISTRY_ACTOR_ADDR,
@@ -916,7 +980,10 @@ impl<'a> Run<'a> {
     }
 
     fn op_replica_update(&mut self, m: usize, r: &mut Prng) -> bool {
-        let is_cc = |i: &SectorOnChainInfo| i.deal_weight.is_zero() && i.verified_deal_weight.is_zero();
+        let e = self.epoch();
+        // sectors past their expiration epoch (awaiting the deadline-end cron) only 1 time in 10
+        let allow_expired = r.chance(10);
+        let is_cc = |i: &SectorOnChainInfo| i.deal_weight.is_zero() && i.verified_deal_weight.is_zero() && (allow_expired || i.expiration > e);
         let p = match self.pick_part(m, r, |p| p.infos.iter().any(|i| p.active.get(i.sector_number) && is_cc(i)), |p| self.is_mutable(m, p.dl)) { Some(p) => p, None => return false };
         let cands: Vec<&SectorOnChainInfo> = p.infos.iter().filter(|i| p.active.get(i.sector_number) && is_cc(i)).collect();
         let info = (*r.pick(&cands)).clone();
@@ -939,6 +1006,10 @@ impl<'a> Run<'a> {
         let res = self.send("replica_update", format!("m{} dl{} p{} sector {} ({})", m, p.dl, p.idx, s, if what == 2 { "verified" } else { "unverified" }), &worker, &addr, MM::ProveReplicaUpdates3 as u64, Some(params));
         if code(&res) == 0 {
             bump(self.cnt, "replica_updates", 1);
+            if info.expiration <= e {
+                bump(self.cnt, "replica_updates_at_or_after_expiration_epoch", 1);
+                self.rebased_after_expiry.insert(s);
+            }
             if !claims.is_empty() { self.miners[m].claims.insert(s, claims); }
         }
         true
@@ -947,7 +1018,8 @@ impl<'a> Run<'a> {
     fn op_compact(&mut self, m: usize, r: &mut Prng) -> bool {
         let info = self.dlinfo(m);
         let ok = |p: &PartView| deadline_available_for_compaction(&self.policy, info.period_start, p.dl, self.epoch());
-        let p = match self.pick_part(m, r, |_| true, |p| ok(p) && !p.terminated.is_empty() && p.faults.is_empty() && p.unproven.is_empty()) { Some(p) => p, None => return false };
+        let with_term = self.views[m].parts.iter().any(|p| ok(p) && !p.terminated.is_empty() && p.faults.is_empty() && p.unproven.is_empty());
+        let p = match self.pick_part(m, r, |_| true, |p| ok(p) && p.faults.is_empty() && p.unproven.is_empty() && (!with_term || !p.terminated.is_empty())) { Some(p) => p, None => return false };
         let idxs: Vec<u64> = self.views[m].parts.iter().filter(|q| q.dl == p.dl).map(|q| q.idx).collect();
         let params = CompactPartitionsParams { deadline: p.dl, partitions: bf(&idxs) };
         let (worker, addr) = (self.miners[m].worker, self.miners[m].addr);
@@ -963,7 +1035,12 @@ impl<'a> Run<'a> {
         if self.miners[m].invalid_posts.is_empty() {
             return false;
         }
-        let i = r.below(self.miners[m].invalid_posts.len() as u64) as usize;
+        let e = self.epoch();
+        let closed: Vec<usize> = (0..self.miners[m].invalid_posts.len()).filter(|i| self.miners[m].invalid_posts[*i].1 <= e).collect();
+        if closed.is_empty() && r.chance(90) {
+            return false;
+        }
+        let i = if closed.is_empty() { 0 } else { *r.pick(&closed) };
         let (dl, _) = self.miners[m].invalid_posts[i];
         let params = DisputeWindowedPoStParams { deadline: dl, post_index: 0 };
         let (disputer, addr) = (self.disputer, self.miners[m].addr);
@@ -976,15 +1053,89 @@ impl<'a> Run<'a> {
     }
 }
 
+impl<'a> Run<'a> {
+    /// `--probe 1`: deterministic scenario around the expiration EPOCH of a sector (which stays live
+    /// until the cron at the end of its deadline): two NI sectors A, B with expiration E, proven; at
+    /// epoch E: ExtendSectorExpiration2(A, new_expiration = E) and ProveReplicaUpdates3(B); at E + 1:
+    /// ProveReplicaUpdates3(A). Results go to stats.extra["probe_expiration_epoch"].
+    fn probe_expiration_epoch(&mut self, r: &mut Prng) {
+        let m = 0usize;
+        let e0 = self.epoch();
+        let nd = self.policy.wpost_period_deadlines;
+        let d = (self.dlinfo(m).index + 10) % nd;
+        let pps = self.views[m].pps;
+        let mut ex = e0 + self.policy.min_sector_expiration + 1;
+        loop {
+            let inf = new_deadline_info_from_offset_and_epoch(&self.policy, pps, ex);
+            if deadline_is_mutable(&self.policy, inf.period_start, d, ex) && deadline_is_mutable(&self.policy, inf.period_start, d, ex + 1) && inf.last() > ex + 1 {
+                break;
+            }
+            ex += 1;
+        }
+        let (a, b) = (100u64, 101u64);
+        let mid = self.miners[m].addr.id().unwrap();
+        let sectors: Vec<SectorNIActivationInfo> = [a, b].iter().map(|s| SectorNIActivationInfo {
+            sealing_number: *s, sealer_id: mid, sealed_cid: make_sealed_cid(format!("probe {}", s).as_bytes()), sector_number: *s, seal_rand_epoch: e0 - 1, expiration: ex,
+        }).collect();
+        let params = ProveCommitSectorsNIParams { sectors, aggregate_proof: RawBytes::new(vec![1, 2, 3, 4]), seal_proof_type: SEAL_NI, aggregate_proof_type: RegisteredAggregateProof::SnarkPackV2, proving_deadline: d, require_activation_success: true };
+        let (worker, addr) = (self.miners[m].worker, self.miners[m].addr);
+        let r0 = self.send("prove_commit_ni", format!("probe [{}, {}] dl{} expiration {}", a, b, d, ex), &worker, &addr, MM::ProveCommitSectorsNI as u64, Some(params));
+        let mut out = vec![json!({"op": "ProveCommitSectorsNI", "epoch": e0, "expiration": ex, "code": code(&r0), "message": r0.message})];
+        while self.next_boundary() < ex {
+            self.advance(r, 1, 100);
+        }
+        self.v.set_epoch(ex);
+        let part = self.views[m].parts.iter().find(|p| p.sectors.get(a)).cloned();
+        if let Some(p) = part {
+            out.push(json!({"at": ex, "active": bits(&p.active), "faults": bits(&p.faults), "unproven": bits(&p.unproven), "claim": self.views[m].claim.as_ref().map(|c| format!("({}, {})", c.0, c.1))}));
+            let params = ExtendSectorExpiration2Params { extensions: vec![ExpirationExtension2 { deadline: p.dl, partition: p.idx, sectors: bf(&[a]), sectors_with_claims: vec![], new_expiration: ex }] };
+            let r1 = self.send("extend", format!("probe sector {} new_expiration == expiration == now {}", a, ex), &worker, &addr, MM::ExtendSectorExpiration2 as u64, Some(params));
+            out.push(json!({"op": "ExtendSectorExpiration2 at epoch == expiration, new_expiration == expiration", "epoch": ex, "code": code(&r1), "message": r1.message}));
+            let ssize = self.miners[m].sector_size as u64;
+            let upd = |s: u64, tag: &str| ProveReplicaUpdates3Params {
+                sector_updates: vec![SectorUpdateManifest { sector: s, deadline: p.dl, partition: p.idx, new_sealed_cid: make_sealed_cid(format!("probe ru {} {}", s, tag).as_bytes()),
+                    pieces: vec![PieceActivationManifest { cid: make_piece_cid(format!("probe piece {} {}", s, tag).as_bytes()), size: PaddedPieceSize(ssize), verified_allocation_key: None, notify: vec![] }] }],
+                sector_proofs: vec![RawBytes::new(vec![1, 2, 3, 4])],
+                aggregate_proof: RawBytes::default(),
+                update_proofs_type: SEAL_NI.registered_update_proof().unwrap(),
+                aggregate_proof_type: None,
+                require_activation_success: true,
+                require_notification_success: false,
+            };
+            let pb = upd(b, "b");
+            let r2 = self.send("replica_update", format!("probe sector {} at epoch == expiration {}", b, ex), &worker, &addr, MM::ProveReplicaUpdates3 as u64, Some(pb));
+            out.push(json!({"op": "ProveReplicaUpdates3 at epoch == expiration", "epoch": ex, "code": code(&r2), "message": r2.message}));
+            self.v.set_epoch(ex + 1);
+            let pa = upd(a, "a");
+            let r3 = self.send("replica_update", format!("probe sector {} at epoch == expiration + 1 {}", a, ex + 1), &worker, &addr, MM::ProveReplicaUpdates3 as u64, Some(pa));
+            if code(&r3) == 0 { self.rebased_after_expiry.insert(a); }
+            out.push(json!({"op": "ProveReplicaUpdates3 at epoch == expiration + 1", "epoch": ex + 1, "code": code(&r3), "message": r3.message}));
+            let infos: Vec<Value> = self.views[m].parts.iter().flat_map(|p| p.infos.iter()).filter(|i| i.sector_number == a || i.sector_number == b)
+                .map(|i| json!({"sector": i.sector_number, "activation": i.activation, "power_base_epoch": i.power_base_epoch, "expiration": i.expiration, "deal_weight": i.deal_weight.to_string()})).collect();
+            out.push(json!({"sector_infos_after": infos, "claim": self.views[m].claim.as_ref().map(|c| format!("({}, {})", c.0, c.1))}));
+            // let the deadline close: both sectors expire
+            self.advance(r, nd, 100);
+            out.push(json!({"after_one_more_period": {"live": self.views[m].nlive, "claim": self.views[m].claim.as_ref().map(|c| format!("({}, {})", c.0, c.1))}}));
+        } else {
+            out.push(json!({"error": "probe sector not found in any partition"}));
+        }
+        out.push(json!({"panics": self.stats.panics.clone()}));
+        self.stats.extra.insert("probe_expiration_epoch".to_string(), json!(out));
+    }
+}
+
 // ---------------------------------------------------------------------------------------------
 // one case
 // ---------------------------------------------------------------------------------------------
-fn run_case(seed: u64, index: usize, len: usize, r: &mut Prng, stats: &mut Stats, cnt: &mut BTreeMap<String, u64>, mutate: bool) -> (Vec<Value>, BTreeSet<String>) {
+fn run_case(seed: u64, index: usize, len: usize, r: &mut Prng, stats: &mut Stats, cnt: &mut BTreeMap<String, u64>, mutate: bool, probe: bool) -> (Vec<Value>, BTreeSet<String>) {
     let mut v = new_world();
     // case parameters
-    let n_miners = 1 + r.below(2) as usize;
-    let short_life = r.chance(35);
-    let diligence = *r.pick(&[55u64, 80, 80, 93]);
+    // 1 case in 25: one miner, default lifetimes, and at the end of the case the clock is advanced
+    // deadline by deadline until the first sector expires naturally (>= 10080 deadline crons)
+    let long_haul = !probe && r.chance(4);
+    let n_miners = if long_haul || probe { 1 } else { 1 + r.below(2) as usize };
+    let short_life = probe || (!long_haul && r.chance(35));
+    let diligence = *r.pick(&[45u64, 70, 85, 93]);
     let min_power_sectors = *r.pick(&[0u64, 2, 3, 320]);
     if short_life {
         // natural expiry is out of reach with the default 180-day minimum lifetime (>= 8640 deadline
@@ -1019,14 +1170,14 @@ fn run_case(seed: u64, index: usize, len: usize, r: &mut Prng, stats: &mut Stats
         v.set_epoch(v.epoch() + 37);
     }
     // datacap
-    let cap = BigInt::from(32u64 << 30) * 100_000;
+    let cap: BigInt = BigInt::from(32u64 << 30) * BigInt::from(100_000u64);
     let rr = exec(&v, &TEST_VERIFREG_ROOT_ADDR, &VERIFIED_REGISTRY_ACTOR_ADDR, &TokenAmount::zero(), VrMethod::AddVerifier as u64, Some(VerifierParams { address: verifier, allowance: cap.clone() }));
     assert_eq!(code(&rr), 0, "AddVerifier: {}", rr.message);
     let rr = exec(&v, &verifier, &VERIFIED_REGISTRY_ACTOR_ADDR, &TokenAmount::zero(), VrMethod::AddVerifiedClient as u64, Some(VerifierParams { address: client, allowance: cap }));
     assert_eq!(code(&rr), 0, "AddVerifiedClient: {}", rr.message);
     v.set_epoch(200 + r.below(3000) as i64);
 
-    let case_id = json!({"seed": seed, "index": index, "len": len, "miners": n_miners, "short_life": short_life, "diligence": diligence, "min_power_sectors": min_power_sectors});
+    let case_id = json!({"seed": seed, "index": index, "len": len, "miners": n_miners, "short_life": short_life, "long_haul": long_haul, "diligence": diligence, "min_power_sectors": min_power_sectors});
     let mut run = Run {
         v,
         policy,
@@ -1043,10 +1194,16 @@ fn run_case(seed: u64, index: usize, len: usize, r: &mut Prng, stats: &mut Stats
         case_id,
         mutate,
         filtered: BTreeSet::new(),
+        rebased_after_expiry: BTreeSet::new(),
     };
     run.drain();
     run.monitor("setup");
     if short_life { bump(run.cnt, "cases_short_life_policy", 1); }
+    if probe {
+        run.probe_expiration_epoch(r);
+        run.repo_invariants();
+        return (run.fails, run.filtered);
+    }
 
     for step in 0..len {
         run.step = step;
@@ -1064,13 +1221,15 @@ fn run_case(seed: u64, index: usize, len: usize, r: &mut Prng, stats: &mut Stats
         if room { w.push(("precommit", if view.nlive == 0 && !has_pending { 40 } else { 9 })); w.push(("ni", if short_life { 12 } else { 5 })); }
         if has_pending { w.push(("prove", if ready { 40 } else { 2 })); }
         w.push(("advance", if any_live || has_pending { 34 } else { 6 }));
+        let near_expiry = run.views.iter().any(|v| v.parts.iter().any(|p| p.infos.iter().any(|i| i.expiration < e + 4 * run.policy.wpost_proving_period)));
+        if near_expiry { w.push(("advance_period", 30)); }
         if view.nlive > 0 {
             w.push(("faults", 7));
             if has_faults { w.push(("recover", 12)); }
             w.push(("terminate", 4));
             w.push(("extend", 5));
             w.push(("replica", 5));
-            w.push(("compact", if view.parts.iter().any(|p| !p.terminated.is_empty()) { 6 } else { 1 }));
+            w.push(("compact", if view.parts.iter().any(|p| !p.terminated.is_empty()) { 10 } else { 1 }));
         }
         if !run.miners[m].invalid_posts.is_empty() { w.push(("dispute", 14)); }
         let total: u64 = w.iter().map(|x| x.1).sum();
@@ -1097,8 +1256,7 @@ fn run_case(seed: u64, index: usize, len: usize, r: &mut Prng, stats: &mut Stats
         if !done {
             // advance time by whole deadlines
             let per = run.policy.wpost_period_deadlines * n_miners as u64;
-            let near_expiry = run.views.iter().any(|v| v.parts.iter().any(|p| p.infos.iter().any(|i| i.expiration < e + 4 * run.policy.wpost_proving_period)));
-            let ticks = if near_expiry && r.chance(45) {
+            let ticks = if choice == "advance_period" || (near_expiry && r.chance(30)) {
                 per
             } else {
                 match r.below(100) {
@@ -1125,6 +1283,20 @@ fn run_case(seed: u64, index: usize, len: usize, r: &mut Prng, stats: &mut Stats
         }
         run.repo_invariants();
     }
+    if long_haul {
+        bump(run.cnt, "cases_long_haul", 1);
+        let target = run.views[0].parts.iter().flat_map(|p| p.infos.iter().map(|i| i.expiration)).min();
+        if let Some(t) = target {
+            run.oplog.push(format!("--- long haul to the first expiration {}", t));
+            let mut guard = 0u64;
+            while run.epoch() <= t + 2 * run.policy.wpost_proving_period && guard < 12_000 {
+                run.advance(r, 48, diligence);
+                guard += 48;
+                if guard % 960 == 0 { run.repo_invariants(); }
+            }
+            run.repo_invariants();
+        }
+    }
     (run.fails, run.filtered)
 }
 
@@ -1134,6 +1306,7 @@ fn main() {
     let header = "From VF Require Import Base.Corr.\nFrom Coq Require Import ZArith List.\nImport ListNotations.\nOpen Scope Z_scope.\n";
     let cw = CaseWriter::new(&a.out, header, "check_case", a.shards);
     let mutate = a.rest.get("mutate").map(|x| x == "1").unwrap_or(false);
+    let probe = a.rest.get("probe").map(|x| x == "1").unwrap_or(false);
     let mut only: Option<usize> = a.rest.get("only").map(|x| x.parse().unwrap());
     let (mut seed, mut cases, mut len) = (a.seed, a.cases, a.len);
     if let Some(p) = &a.replay {
@@ -1153,10 +1326,17 @@ fn main() {
     let mut root = Prng::new(seed);
     let t0 = std::time::Instant::now();
     let mut ran = 0u64;
+    if probe {
+        let mut r = root.fork(u64::MAX);
+        let (fails, filtered) = run_case(seed, usize::MAX, 0, &mut r, &mut stats, &mut cnt, false, true);
+        for f in fails { stats.monitor_fail(f); }
+        filtered_all.extend(filtered);
+        cases = 0;
+    }
     for k in 0..cases {
         let mut r = root.fork(k as u64);
         if let Some(o) = only { if o != k { continue; } }
-        let (fails, filtered) = run_case(seed, k, len, &mut r, &mut stats, &mut cnt, mutate);
+        let (fails, filtered) = run_case(seed, k, len, &mut r, &mut stats, &mut cnt, mutate, false);
         for f in fails { stats.monitor_fail(f); }
         filtered_all.extend(filtered);
         ran += 1;
